@@ -59,11 +59,13 @@ class SFiltered:
         return self.exists_eq(to_int(item) if is_intlike(item) else to_real(item))
 
     def sym_len(self, it):
-        it.path.assumed.add("len() of a filtered sequence: 0 <= L <= len(source), L == 0 iff no element passes the filter")
+        it.path.assumed.add("len() of a filtered sequence: 0 <= L <= len(source), L == 0 iff no element passes the filter, L >= 2 iff two do")
         L = it.path.fresh("len", z3.IntSort())
         j = z3.Int(_fresh("jl"))
         none = z3.ForAll([j], z3.Implies(z3.And(0 <= j, j < self.n), z3.Not(self.cond(j))))
-        it.path.assume(z3.And(L >= 0, L <= self.n, (L == 0) == none))
+        a, b = z3.Int(_fresh("ja")), z3.Int(_fresh("jb"))
+        two = z3.Exists([a, b], z3.And(0 <= a, a < b, b < self.n, self.cond(a), self.cond(b)))
+        it.path.assume(z3.And(L >= 0, L <= self.n, (L == 0) == none, (L >= 2) == two))
         self.length_term = L
         return L
 
